@@ -12,7 +12,7 @@ RULE = ('G-sel graphs (incl. zero choices, forced choices, incompatibilities) x 
         'non-trivial = at least 2 valid rows; distinct = graph')
 TRUSTED = ['the encoding description E is read from GraphProcessor.all_des_vars']
 PARTIAL = []
-batches = _proc.make_batches('C14', ['fast'], 500, 6000)
+batches = _proc.make_batches('C14', ['fast'], 500, 6000, cons_prob=0.25)
 run_case = _proc.make_run_case(CLAUSES, vec_limit=200)
 compare = _proc.compare
 shrink_candidates = _proc.shrink_candidates
